@@ -226,6 +226,93 @@ Proof.
   destruct (replay_sprint k acts c c' evs H1 H2 H3 H4) as [_ [_ [_ [_ [_ [_ [Hg _]]]]]]]. exact Hg.
 Qed.
 
+(* ---- where the replay takes last-seen from --------------------------------------------------------------------
+   The real msg_received event does not carry the time; the caller replays it with the time the message came in, which
+   it knows from the trigger (triggered_on) or the resume (resumed_on) it handed to the engine.  In the model the
+   event is annotated with that time; this section shows that the annotation is exactly the input time of the kind of
+   engine call, and that nothing else emits such an event. *)
+Definition is_msg (e : event) : bool := match e with EMsgReceived _ => true | _ => false end.
+
+Lemma errors_no_msg : forall l, all_errors l -> existsb is_msg l = false.
+Proof.
+  induction l as [|e l IH]; intro H; [reflexivity|]. inversion H; subst. cbn. apply IH. assumption.
+Qed.
+
+Lemma groups_event_no_msg : forall a r, existsb is_msg (groups_event a r) = false.
+Proof. intros [|x a] [|y r]; reflexivity. Qed.
+
+Lemma apply_no_msg : forall fresh m c c' evs b,
+  NoDup (c_groups c) -> apply E fresh m c = (c', evs, b) -> existsb is_msg evs = false.
+Proof.
+  intros fresh m c c' evs b Hnd H. unfold apply in H.
+  destruct (apply_inner E fresh m c) as [[c1 evs1] b1] eqn:HI.
+  assert (H1 : existsb is_msg evs1 = false).
+  { destruct m; cbn [apply_inner] in HI.
+    - unfold apply_name in HI. destruct (negb _); inversion HI; reflexivity.
+    - unfold apply_language in HI. destruct (negb _); inversion HI; reflexivity.
+    - unfold apply_status in HI. destruct (negb _); inversion HI; reflexivity.
+    - unfold apply_timezone in HI. destruct (negb _); inversion HI; reflexivity.
+    - unfold apply_field in HI. destruct (negb _); inversion HI; reflexivity.
+    - unfold apply_groups in HI. destruct (negb _); [inversion HI; reflexivity|]. destruct md.
+      + destruct (groups_add_loop_spec E gs (c_groups c) [] []) as [d [errs [HL [Herr _]]]]. rewrite HL in HI.
+        pose proof (errors_no_msg errs Herr) as Hno.
+        destruct ([] ++ d); inversion HI; subst; cbn [app] in *; rewrite ?existsb_app, ?Hno; reflexivity.
+      + destruct (groups_remove_loop_spec E gs (c_groups c) [] [] Hnd) as [d [errs [HL [Herr _]]]]. rewrite HL in HI.
+        pose proof (errors_no_msg errs Herr) as Hno.
+        destruct ([] ++ d); inversion HI; subst; cbn [app] in *; rewrite ?existsb_app, ?Hno; reflexivity.
+    - unfold apply_urns in HI.
+      destruct (urns_loop_spec E md us (match md with USet => [] | _ => c_urns c end) []) as [errs [HL Herr]].
+      rewrite HL in HI. cbn [app] in HI. pose proof (errors_no_msg errs Herr) as Hno.
+      destruct (negb _); inversion HI; subst; rewrite ?existsb_app, ?Hno; reflexivity.
+    - unfold apply_channel in HI. destruct (match ch with Some k => negb (chan_can_send E k) | None => false end);
+        [inversion HI; reflexivity|]. destruct (update_preferred_channel E ch (c_urns c)) as [us' [|]]; inversion HI; reflexivity.
+    - unfold apply_ticket in HI. destruct (c_ticket c); inversion HI; reflexivity. }
+  destruct b1; [|inversion H; subst; exact H1].
+  destruct (reevaluate_groups E c1) as [c2 evs2] eqn:HR. inversion H; subst. rewrite existsb_app, H1.
+  unfold reevaluate_groups in HR. destruct (reevaluate_query_groups E c1) as [[cur added] removed].
+  destruct (negb (is_active c1)); inversion HR; subst; apply groups_event_no_msg.
+Qed.
+
+Lemma steps_msg_time : forall ss c c' evs t,
+  wf_contact E c -> Forall (step_wf E) ss ->
+  run_steps E ss c = (c', evs) -> In (EMsgReceived t) evs -> In (SSetInput t) ss.
+Proof.
+  induction ss as [|s ss IH]; intros c c' evs t Hwf Hss H Hin; cbn [run_steps] in H.
+  - inversion H; subst. destruct Hin.
+  - inversion Hss as [|? ? Hs Hss']; subst.
+    destruct (run_step E s c) as [c1 e1] eqn:H1. destruct (run_steps E ss c1) as [c2 e2] eqn:H2.
+    inversion H; subst c' evs. destruct (run_step_spec s c c1 e1 Hwf Hs H1) as [_ W1].
+    apply in_app_iff in Hin. destruct Hin as [Hin|Hin]; [|right; eapply IH; eassumption]. left.
+    destruct s as [fresh m| |c0|t0]; cbn [run_step] in H1.
+    + exfalso. destruct (apply E fresh m c) as [[cx ex] bx] eqn:HA. inversion H1; subst cx ex.
+      destruct Hwf as [Hnd _]. pose proof (apply_no_msg fresh m c c1 e1 bx Hnd HA) as Hno.
+      assert (Hex : existsb is_msg e1 = true) by (apply existsb_exists; exists (EMsgReceived t); split; [exact Hin | reflexivity]).
+      congruence.
+    + exfalso. unfold ensure_query_groups in H1. destruct (reevaluate_query_groups E c) as [[cur a] r].
+      inversion H1; subst. pose proof (groups_event_no_msg a r) as Hno.
+      assert (Hex : existsb is_msg (groups_event a r) = true) by (apply existsb_exists; exists (EMsgReceived t); split; [exact Hin | reflexivity]).
+      congruence.
+    + exfalso. destruct (contact_json_eqb c c0); inversion H1; subst; [destruct Hin | destruct Hin as [Hin|[]]; discriminate].
+    + inversion H1; subst. destruct Hin as [Hin|[]]. inversion Hin. reflexivity.
+Qed.
+
+Definition kind_input (k : sprint_kind) : option N :=
+  match k with KStartEmpty => None | KStart i => i | KResume _ i => i end.
+
+(* every msg_received of a sprint is replayed with the time of the message the trigger / resume brought *)
+Theorem sprint_msg_time : forall k acts c c' evs t,
+  wf_contact E c -> kind_wf k -> Forall (fun fm => mod_wf E (snd fm)) acts ->
+  run_sprint E k acts c = (c', evs) -> In (EMsgReceived t) evs -> kind_input k = Some t.
+Proof.
+  intros k acts c c' evs t Hwf Hk Hms H Hin. unfold run_sprint in H.
+  pose proof (steps_msg_time _ c c' evs t Hwf (sprint_steps_wf k acts Hk Hms) H Hin) as Hs.
+  assert (Hnot : ~ In (SSetInput t) (map (fun fm => SApply (fst fm) (snd fm)) acts)).
+  { intro Hm. apply in_map_iff in Hm. destruct Hm as [x [Hx _]]. discriminate. }
+  destruct k as [|[t0|]|[c0|] [t0|]]; cbn [sprint_steps opt_step app kind_input] in *;
+    repeat (destruct Hs as [Hs|Hs]; [try discriminate; try (inversion Hs; reflexivity)|]);
+    try (exfalso; exact (Hnot Hs)); try destruct Hs.
+Qed.
+
 (* ---- "a contact that becomes non-active also leaves all its static groups", at sprint level ----------------------
    Invariant: a non-active contact is in no static group.  ensureQueryBasedGroups and SetInput keep status and static
    membership; an effective modifier clears every group of a non-active contact; a modifier that changes nothing
